@@ -83,7 +83,20 @@ def _gen(sc, chk, ntrees, nproc):
             raise MachineryError("ScopeGen wrote %d programs but reports %d" % (len(got), told[0]))
         return res, got
 
-    results = run_parallel([lambda k=k: one(k) for k in range(nproc) if k * per < ntrees], nproc=NPROC)
+    def fixed():
+        # the whole (scope x slot x path) site space of one fixed tree (thorough), every 6th site (quick)
+        out = sc.file("progs-fixed.ndjson")
+        env = {"GEN_SALT": chk.seed % 1000, "GEN_LO": 0, "GEN_CNT": 1, "GEN_OUT": out, "GEN_FIXED": 1,
+               "GEN_SITE_MOD": 6 if chk.tier == "quick" else 1, "GEN_MAX_FAIL": 100000}
+        res = run_tlc(os.path.join(AREA, "ScopeGen.tla"), cfg, workers=1, env=env, timeout=2400,
+                      metadir=os.path.join(sc.sub("meta"), "gen-fixed"))
+        told = [j["emitted"] for j in res.printed_json() if "emitted" in j]
+        if not res.completed or len(told) != 1:
+            raise MachineryError("ScopeGen (fixed tree) did not complete:\n" + res.error_trace_tail(30))
+        with open(out) as f:
+            return res, [json.loads(l) for l in f if l.strip()]
+
+    results = run_parallel([fixed] + [lambda k=k: one(k) for k in range(nproc) if k * per < ntrees], nproc=NPROC)
     progs = []
     for res, got in results:
         chk.add_tlc(res, part="gen")
@@ -152,7 +165,7 @@ def _decide(sc, name, records, nshards=None):
 
 
 def _bind(chk, sc):
-    ntrees = 110 if chk.tier == "quick" else 1500
+    ntrees = 90 if chk.tier == "quick" else 1500
     t0 = time.time()
     progs = _gen(sc, chk, ntrees, 3 if chk.tier == "quick" else NPROC)
     _dbg("gen: %d programs from %d trees %.1fs" % (len(progs), ntrees, time.time() - t0))
@@ -263,3 +276,26 @@ def run(chk, only=None):
         "members reached after a dot: fields and virtual fields of the field's type (parameters of the type are not generated as members)",
     ]
     chk.exhaustive = False
+
+
+def replay(chk, path):
+    """Re-run one recorded violation with the current tree."""
+    with open(path) as f:
+        rp = json.load(f)
+    prog = {k: v for k, v in rp["case"]["record"].items() if k != "obs"}
+    with Scratch("c12r") as sc:
+        try:
+            _pool()
+            obs = _observe([prog])
+            rec = dict(prog, obs=obs[prog["id"]]["obs"])
+            fails, _, _, res = _decide(sc, "replay", [rec], nshards=1)
+            for r in res:
+                chk.add_tlc(r, part="replay")
+            chk.traces = 1
+            for fl in fails:
+                chk.violation(fl["clause"], "C12 replay %s: clause %s -- expected %s, got %s" % (
+                    prog["id"], fl["clause"], fl["expected"][:300], fl["got"][:300]),
+                    {"record": rec, "rendered": obs[prog["id"]]["files"]})
+        finally:
+            _close_pool()
+    chk.rule = "replay of " + path
